@@ -10,56 +10,39 @@
 -/
 import PdshVerif.Gen.FnDsh
 import PdshVerif.Dsh.Timed
-import PdshVerif.Dsh.Signals
-import PdshVerif.Dsh.Exit
 
 namespace PdshVerif.Bridge.Dsh
 open PdshVerif.Dsh.Timed
 open PdshVerif.Gen.Fn.Dsh
 
 /-- the C record of a model host (the two fields the decisions read) -/
-def toC (h : Host) : thd := { (default : thd) with start := (h.start : Int), connect := (h.conn : Int) }
+@[reducible] def toC (h : Host) : thd := { (default : thd) with start := (h.start : Int), connect := (h.conn : Int) }
+
+/-! Proof style of this file (robust against helper extraction / inlining, `a < b` vs `b > a`, nested vs merged
+    conditions, early returns vs `?:`): split on the ATOMIC arithmetic facts of the model side, then ONE `simp` that
+    unfolds the translated definitions (the auxiliaries the translator followed calls into are `@[simp]`) and
+    decides EVERY `if` of the code side by linear arithmetic (`if_pos` / `if_neg` discharged by `omega`). -/
 
 /-- BRIDGE `_thd_connect_timeout`: 1 iff `connect_timeout > 0` and `start + connect_timeout < now`
     (no overflow for any `int` time-out and any instant below 2^62) -/
 theorem thd_connect_timeout_bridge (ct now : Nat) (h : Host) (hct : ct ≤ 2147483647) (hs : h.start < 2 ^ 62) :
     _thd_connect_timeout (ct : Int) (now : Int) (toC h) =
       some (if 0 < ct ∧ h.start + ct < now then 1 else 0) := by
-  simp only [_thd_connect_timeout, toC]
   have h62 : (2 : Nat) ^ 62 = 4611686018427387904 := by decide
   rw [h62] at hs
-  by_cases h0 : 0 < ct
-  · have h0' : (ct : Int) > 0 := by omega
-    have hne : (h.start : Int) ≠ -1 := by omega
-    have hr : -9223372036854775808 ≤ (h.start : Int) + (ct : Int) ∧ (h.start : Int) + (ct : Int) ≤ 9223372036854775807 := by omega
-    simp only [h0', hne, ne_eq, not_false_eq_true, and_self, if_true, hr, not_true_eq_false, if_false, h0, true_and]
-    by_cases hlt : h.start + ct < now
-    · have : (h.start : Int) + (ct : Int) < (now : Int) := by omega
-      simp [hlt, this]
-    · have : ¬ (h.start : Int) + (ct : Int) < (now : Int) := by omega
-      simp [hlt, this]
-  · have h0' : ¬ (ct : Int) > 0 := by omega
-    simp [h0, h0']
+  by_cases h0 : 0 < ct <;> by_cases hlt : h.start + ct < now <;>
+    simp (disch := omega) [_thd_connect_timeout, toC, h0, hlt, if_pos, if_neg, decide_eq_true_eq] <;>
+    try simp (disch := omega) only [if_pos, if_neg]
 
 /-- BRIDGE `_thd_command_timeout`: 1 iff `command_timeout > 0` and `connect + command_timeout < now` -/
 theorem thd_command_timeout_bridge (ut now : Nat) (h : Host) (hut : ut ≤ 2147483647) (hs : h.conn < 2 ^ 62) :
     _thd_command_timeout (ut : Int) (now : Int) (toC h) =
       some (if 0 < ut ∧ h.conn + ut < now then 1 else 0) := by
-  simp only [_thd_command_timeout, toC]
   have h62 : (2 : Nat) ^ 62 = 4611686018427387904 := by decide
   rw [h62] at hs
-  by_cases h0 : 0 < ut
-  · have h0' : (ut : Int) > 0 := by omega
-    have hne : (h.conn : Int) ≠ -1 := by omega
-    have hr : -9223372036854775808 ≤ (h.conn : Int) + (ut : Int) ∧ (h.conn : Int) + (ut : Int) ≤ 9223372036854775807 := by omega
-    simp only [h0', hne, ne_eq, not_false_eq_true, and_self, if_true, hr, not_true_eq_false, if_false, h0, true_and]
-    by_cases hlt : h.conn + ut < now
-    · have : (h.conn : Int) + (ut : Int) < (now : Int) := by omega
-      simp [hlt, this]
-    · have : ¬ (h.conn : Int) + (ut : Int) < (now : Int) := by omega
-      simp [hlt, this]
-  · have h0' : ¬ (ut : Int) > 0 := by omega
-    simp [h0, h0']
+  by_cases h0 : 0 < ut <;> by_cases hlt : h.conn + ut < now <;>
+    simp (disch := omega) [_thd_command_timeout, toC, h0, hlt, if_pos, if_neg, decide_eq_true_eq] <;>
+    try simp (disch := omega) only [if_pos, if_neg]
 
 /-- the watchdog's per-slot decision of the model IS the code's: a slot is signalled iff it is in RCMD
     and `_thd_connect_timeout` says so, or in READING and `_thd_command_timeout` says so -/
@@ -82,7 +65,7 @@ def stateOf : Phase → Nat
   | .new => 0 | .rcmd => 1 | .connecting => 1 | .reading => 2 | .finished => 3
 
 /-- the slot with its state and thread id -/
-def toCS (h : Host) (tid : Nat) : thd := { toC h with state := stateOf h.ph, thread := tid }
+@[reducible] def toCS (h : Host) (tid : Nat) : thd := { toC h with state := stateOf h.ph, thread := tid }
 
 /-- what the code's watchdog decides for one slot -/
 def signalled (c : Cfg) (now : Nat) (h : Host) : Bool :=
@@ -95,17 +78,14 @@ theorem wdog_slot_bridge (c : Cfg) (now tid : Nat) (h : Host) (hct : c.ct ≤ 21
     (hs : h.start < 2 ^ 62) (hc : h.conn < 2 ^ 62) :
     wdog_slot (c.ct : Int) (c.ut : Int) (now : Int) (toCS h tid) =
       some (if signalled c now h then [⟨"pthread_kill", [.int (tid : Int), .int 14]⟩] else []) := by
-  have e1 := thd_connect_timeout_bridge c.ct now h hct hs
-  have e2 := thd_command_timeout_bridge c.ut now h hut hc
-  have t1 : _thd_connect_timeout (c.ct : Int) (now : Int) (toCS h tid) = _thd_connect_timeout (c.ct : Int) (now : Int) (toC h) := by
-    rfl
-  have t2 : _thd_command_timeout (c.ut : Int) (now : Int) (toCS h tid) = _thd_command_timeout (c.ut : Int) (now : Int) (toC h) := by
-    rfl
+  have h62 : (2 : Nat) ^ 62 = 4611686018427387904 := by decide
+  rw [h62] at hs hc
   unfold wdog_slot signalled
-  rw [t1, t2, e1, e2]
-  cases hp : h.ph <;> simp [toCS, stateOf, hp] <;>
-    (by_cases a : 0 < c.ct <;> by_cases b : h.start + c.ct < now <;> by_cases d : 0 < c.ut <;>
-      by_cases e : h.conn + c.ut < now <;> simp [a, b, d, e])
+  cases hp : h.ph <;>
+    by_cases a : 0 < c.ct <;> by_cases b : h.start + c.ct < now <;> by_cases d : 0 < c.ut <;>
+    by_cases e : h.conn + c.ut < now <;>
+    simp (disch := omega) [_thd_connect_timeout, _thd_command_timeout, toCS, toC, stateOf, hp, a, b, d, e, if_pos, if_neg,
+      decide_eq_true_eq]
 
 /-- the model's `killed` (a signal that takes effect) is the code's decision, except in the window where the
     slot is already RCMD but the worker is not yet blocked in connect (phase `.rcmd`: the signal is lost) -/
@@ -114,135 +94,5 @@ theorem killed_wdog_slot (c : Cfg) (now : Nat) (h : Host) :
   have hb : ∀ a b : Phase, (a == b) = decide (a = b) := by intro a b; cases a <;> cases b <;> rfl
   unfold killed signalled
   cases hp : h.ph <;> simp [stateOf, hb, bne]
-
-/-! ### signal handling (C08): `_fwd_signal`, `_cancel_pending_threads`, `_list_slowthreads` per slot,
-    `_handle_sigint`, `_handle_sigtstp` -/
-section signals
-open PdshVerif.Dsh.Sig
-
-/-- the enumerators of `state_t` -/
-def tsCode : TS → Nat
-  | .new => 0 | .rcmd => 1 | .reading => 2 | .done => 3 | .failed => 4 | .canceled => 5
-
-def slotOf (t : TS) : thd := { (default : thd) with state := tsCode t }
-
-/-- BRIDGE the test of `_fwd_signal`: a signal is forwarded to the READING slots only (`SAct.fwd`) -/
-theorem fwd_signal_slot_bridge (t : TS) : fwd_signal_slot (slotOf t) = some (decide (t = .reading)) := by
-  cases t <;> simp [fwd_signal_slot, slotOf, tsCode]
-
-/-- BRIDGE the body of the loop of `_cancel_pending_threads` = `cancelT` / `isPending` -/
-theorem cancel_pending_slot_bridge (t : TS) (n : Nat) (hn : n < 2147483647) :
-    cancel_pending_slot (slotOf t) (n : Int) =
-      some (slotOf (cancelT t), ((n + (if isPending t then 1 else 0) : Nat) : Int)) := by
-  have r : -2147483648 ≤ (n : Int) + 1 ∧ (n : Int) + 1 ≤ 2147483647 := by omega
-  cases t <;> simp [cancel_pending_slot, slotOf, tsCode, cancelT, isPending, r]
-
-/-- BRIDGE the `switch` of `_list_slowthreads` without -d: something is printed exactly for the slots
-    `isListed` names (RCMD "connecting", READING "command in progress") -/
-theorem list_slowthreads_slot_bridge (t : TS) (ct ut now now2 : Nat) (start conn ttl : Int)
-    (hct : ct ≤ 2147483647) (hut : ut ≤ 2147483647) (hn : now < 2 ^ 62) (hn2 : now2 < 2 ^ 62)
-    (hs : -(2 ^ 62) < start ∧ start < 2 ^ 62) (hc : -(2 ^ 62) < conn ∧ conn < 2 ^ 62) :
-    ∃ ttl' ev, list_slowthreads_slot (ut : Int) 0 (ct : Int) (now : Int) (now2 : Int)
-        { slotOf t with start := start, connect := conn } ttl = some (ttl', ev) ∧
-      (ev ≠ [] ↔ isListed t = true) := by
-  have h62 : (2 : Int) ^ 62 = 4611686018427387904 := by decide
-  have h62n : (2 : Nat) ^ 62 = 4611686018427387904 := by decide
-  rw [h62] at hs hc; rw [h62n] at hn hn2
-  have r1 : -9223372036854775808 ≤ conn + (ut : Int) ∧ conn + (ut : Int) ≤ 9223372036854775807 := by omega
-  have r2 : -9223372036854775808 ≤ conn + (ut : Int) - (now : Int) ∧ conn + (ut : Int) - (now : Int) ≤ 9223372036854775807 := by omega
-  have r3 : -9223372036854775808 ≤ start + (ct : Int) ∧ start + (ct : Int) ≤ 9223372036854775807 := by omega
-  have r4 : -9223372036854775808 ≤ start + (ct : Int) - (now2 : Int) ∧ start + (ct : Int) - (now2 : Int) ≤ 9223372036854775807 := by omega
-  cases t <;> simp [list_slowthreads_slot, slotOf, tsCode, isListed, r1, r2, r3, r4] <;>
-    exact ⟨_, _, ⟨rfl, rfl⟩, by simp⟩
-
-/-- the names of the recorded calls -/
-def names (ev : List PdshVerif.C2Lean.Ev) : List String := ev.map (·.name)
-
-/-- BRIDGE `_handle_sigint` = the `.sigwait .int` / `.time` decisions of `sStep`: batch mode forwards SIGINT and
-    aborts; otherwise a first ^C (more than INTR seconds after the last one) lists the slow threads and records
-    the instant, a second one within INTR seconds forwards SIGINT and aborts.  `t == NULL`: nothing. -/
-theorem handle_sigint_bridge (batch : Bool) (now now2 last : Nat) (h1 : now < 2 ^ 62) (h2 : last < 2 ^ 62) :
-    ∃ last' ev, _handle_sigint (if batch then 1 else 0) false (now : Int) (now2 : Int) (last : Int) = some (last', ev) ∧
-      (last', names ev) =
-        (if batch then ((last : Int), ["_fwd_signal", "errx"])
-         else if now - last > INTR then ((now2 : Int), ["err", "err", "_list_slowthreads"])
-         else ((last : Int), ["_fwd_signal", "errx"])) := by
-  have h62n : (2 : Nat) ^ 62 = 4611686018427387904 := by decide
-  rw [h62n] at h1 h2
-  have r : -9223372036854775808 ≤ (now : Int) - (last : Int) ∧ (now : Int) - (last : Int) ≤ 9223372036854775807 := by omega
-  cases batch
-  · by_cases q : now - last > INTR
-    · have q' : (now : Int) - (last : Int) > 1 := by simp only [INTR, PdshVerif.Gen.INTR_TIME] at q; omega
-      simp [_handle_sigint, names, r, q, q']
-      exact ⟨_, _, ⟨rfl, rfl⟩, rfl, rfl⟩
-    · have q' : ¬ (now : Int) - (last : Int) > 1 := by simp only [INTR, PdshVerif.Gen.INTR_TIME] at q; omega
-      simp [_handle_sigint, names, r, q, q']
-      exact ⟨_, _, ⟨rfl, rfl⟩, rfl, rfl⟩
-  · simp [_handle_sigint, names]
-    exact ⟨_, _, ⟨rfl, rfl⟩, rfl, rfl⟩
-
-theorem handle_sigint_null (si : Int) (now now2 last : Int) :
-    _handle_sigint si true now now2 last = some (last, []) := by
-  simp [_handle_sigint]
-
-/-- BRIDGE `_handle_sigtstp`: ^Z more than INTR seconds after the last ^C stops the process (`raise (SIGSTOP)`),
-    otherwise it cancels the pending threads -/
-theorem handle_sigtstp_bridge (now last : Nat) (h1 : now < 2 ^ 62) (h2 : last < 2 ^ 62) :
-    ∃ ev, _handle_sigtstp false (now : Int) (last : Int) = some ev ∧
-      names ev = (if now - last > INTR then ["raise"] else ["_cancel_pending_threads"]) := by
-  have h62n : (2 : Nat) ^ 62 = 4611686018427387904 := by decide
-  rw [h62n] at h1 h2
-  have r : -9223372036854775808 ≤ (now : Int) - (last : Int) ∧ (now : Int) - (last : Int) ≤ 9223372036854775807 := by omega
-  by_cases q : now - last > INTR
-  · have q' : (now : Int) - (last : Int) > 1 := by simp only [INTR, PdshVerif.Gen.INTR_TIME] at q; omega
-    simp [_handle_sigtstp, names, r, q, q']
-  · have q' : ¬ (now : Int) - (last : Int) > 1 := by simp only [INTR, PdshVerif.Gen.INTR_TIME] at q; omega
-    simp [_handle_sigtstp, names, r, q, q']
-
-end signals
-
-/-! ### the -S aggregation loop at the end of `dsh()` (loop body, registry entry `exit_agg_step`) -/
-section exitagg
-open PdshVerif.Dsh.Exit
-
-def exitCode : State → Nat
-  | .done => 3 | .failed => 4 | .canceled => 5
-
-def exitSlot (h : PdshVerif.Dsh.Exit.Host) : thd := { (default : thd) with state := exitCode h.state, rc := h.rc }
-
-/-- one round of the loop as the model computes it (`aggLoop` after `seen`) -/
-def aggStep (fx : Fixes) (rc : Int) (h : PdshVerif.Dsh.Exit.Host) : Int :=
-  let h := seen fx h
-  let rc1 := if h.state = .failed then (if fx.d8 then max rc RC_FAILED else RC_FAILED) else rc
-  if h.rc > rc1 then h.rc else rc1
-
-theorem aggLoop_foldl (fx : Fixes) : ∀ (hs : List PdshVerif.Dsh.Exit.Host) (rc : Int),
-    aggLoop fx rc (hs.map (seen fx)) = hs.foldl (aggStep fx) rc
-  | [], rc => rfl
-  | h :: t, rc => by
-    simp only [List.map_cons, aggLoop, List.foldl_cons]
-    exact aggLoop_foldl fx t _
-
-/-- BRIDGE the body of the loop = one round of `aggLoop` for the repaired tree (d8: RC_FAILED does not
-    replace a larger code; canc: CANCELED counts as FAILED) -/
-theorem exit_agg_step_bridge (fx : Fixes) (hd8 : fx.d8 = true) (hc : fx.canc = true) (rc : Int) (h : PdshVerif.Dsh.Exit.Host) :
-    exit_agg_step (exitSlot h) rc = some (aggStep fx rc h) := by
-  cases h with
-  | mk st hrc =>
-    cases st <;>
-      simp only [exit_agg_step, exitSlot, exitCode, aggStep, seen, hd8, hc, RC_FAILED, PdshVerif.Gen.RC_FAILED] <;>
-      (by_cases a : rc < 254 <;> by_cases b : hrc > rc <;> by_cases d : hrc > 254 <;> simp [a, b, d, Int.max_def] <;> omega)
-
-/-- the whole loop: the code's body, folded over the targets, is the model's `aggregate` -/
-theorem exit_aggregate_bridge (fx : Fixes) (hd8 : fx.d8 = true) (hc : fx.canc = true) (hs : List PdshVerif.Dsh.Exit.Host) :
-    aggregate fx hs = hs.foldl (fun rc h => (exit_agg_step (exitSlot h) rc).getD rc) 0 := by
-  unfold aggregate
-  rw [aggLoop_foldl]
-  congr 1
-  funext rc h
-  rw [exit_agg_step_bridge fx hd8 hc]
-  rfl
-
-end exitagg
 
 end PdshVerif.Bridge.Dsh
